@@ -47,6 +47,10 @@ bool InitSurveillanceAreaGrid::initialize(ParticleSet& particles)
     if (num_particle != num_particle_x_ * num_particle_y_)
         return false;
 
+    /* The grid is laid out on states (x, vx, y, vy). */
+    if (particles.state().rows() != 4)
+        return false;
+
     double delta_surv_x = surv_x_sup_ - surv_x_inf_;
     double delta_surv_y = surv_y_sup_ - surv_y_inf_;
 
